@@ -99,6 +99,10 @@ pub trait Val: Same + Clone + PartialEq + 'static {
     fn is_zst() -> bool {
         std::mem::size_of::<Self>() == 0
     }
+    /// Number of direct elements (row width / slice length); 0 for non-containers.
+    fn width(&self) -> usize {
+        0
+    }
 }
 
 macro_rules! int_val {
@@ -484,7 +488,7 @@ impl<T: Same> Same for Vec<T> {
 impl<T: Val> Val for Vec<T> {
     fn gen(rng: &mut Rng, dom: Dom) -> Self {
         let max = dom.max_len();
-        if T::is_zst() && dom.kind != Kind::Tiny && rng.chance(1, 4) {
+        if T::is_zst() && dom.kind != Kind::Tiny && dom.depth == 0 && rng.chance(1, 4) {
             // zero-sized elements: lengths beyond u32::MAX are free of charge
             let n = match rng.below(4) {
                 0 => (1usize << 32) + rng.below(5),
@@ -512,6 +516,9 @@ impl<T: Val> Val for Vec<T> {
             return self.len() == o.len();
         }
         self.len() == o.len() && self.iter().zip(o.iter()).all(|(a, b)| a.peq(b))
+    }
+    fn width(&self) -> usize {
+        self.len()
     }
 }
 
